@@ -251,17 +251,26 @@ def run_shard(ctx):
         base = C05.gen_tree(rng, 0, rng.choice(["map", "map", "seq"]))
         lts = gen_stream(rng, base)
         rts = gen_stream(rng, base)
-        # all documents of one case share the root kind (a multi-document YAML file of like documents)
+        # all documents of one case share the root kind (a multi-document YAML file of like documents) ...
         if len({t[0] for t in lts + rts}) > 1:
             continue
+        # ... except, sometimes, ONE left document that is not the last: its merges fail while the others succeed,
+        # and the mode as a whole must then report failure
+        if len(lts) >= 2 and rng.random() < 0.12:
+            odd = rng.randrange(len(lts) - 1)
+            lts[odd] = C05.gen_tree(rng, 0, "seq" if lts[odd][0] == "map" else "map")
+            ctx.count("one_left_document_of_another_kind")
         ltexts = [gd.render(t) for t in lts]
         rtexts = [gd.render(t) for t in rts]
         if rng.random() < 0.05:
             rtexts[rng.randrange(len(rtexts))] = None       # an empty document
+        if len(ltexts) >= 2 and rng.random() < 0.08:
+            ltexts[rng.randrange(len(ltexts) - 1)] = None   # an empty LEFT document that is not the last one
+            ctx.count("empty_left_document_cases")
         combo = rng.choice(SAMPLE)
         for mode in MODES:
             run_lib(ctx, ltexts, rtexts, combo, mode)
-        if ncli < wcli and None not in rtexts:
+        if ncli < wcli and None not in rtexts and None not in ltexts:
             run_cli(ctx, ltexts, rtexts, combo, rng.choice(MODES), workdir)
             ncli += 1
         n += 1
